@@ -161,6 +161,72 @@ def incomingTracker (localID sessRemote : Bytes) : Option Tracker :=
 def dialTracker (localID peerID : Bytes) : Option Tracker :=
   addSessionTrackerRef localID (Codec.idB58Encode peerID)
 
+/-! ### who gets a session: the block list, the signaling ID and the `incomingSessions` table -/
+
+/-- The configuration facts of a `WebRTC` transport that decide which peers get a session:
+its own peer ID, `conf.SignalingId`, `conf.BlockPeers` (peer ID strings), `conf.AllPeers` and the
+keys of `conf.Dialers`. -/
+structure Transport where
+  localID : Bytes
+  signalingID : Bytes := []
+  blockPeers : List Bytes := []
+  allPeers : Bool := false
+  dialers : List Bytes := []
+deriving Repr, DecidableEq
+
+/-- `slices.Contains(conf.GetBlockPeers(), peerID.String())` -/
+def Transport.blocked (t : Transport) (peerID : Bytes) : Bool := t.blockPeers.contains (Codec.idB58Encode peerID)
+
+/-- `resolveHandleSignalPeer` (handler.go): a resolver is returned iff none of the three guards
+(`Gen.WebRtcSession.handleGuards`) fires: the directive's signaling ID is the transport's, the
+session's local peer is the transport's peer (compared as ID strings), and the session's remote
+peer is not on the block list. -/
+def Transport.answers (t : Transport) (sigID sessLocal sessRemote : Bytes) : Bool :=
+  sigID == t.signalingID && Codec.idB58Encode sessLocal == Codec.idB58Encode t.localID && !t.blocked sessRemote
+
+/-- The tracker a signal arriving on the signaling session (`sigID`, `sessLocal`, `sessRemote`)
+reaches: none when the handler does not answer the session, otherwise `incomingTracker`. -/
+def Transport.incoming (t : Transport) (sigID sessLocal sessRemote : Bytes) : Option Tracker :=
+  if t.answers sigID sessLocal sessRemote then incomingTracker t.localID sessRemote else none
+
+/-- Outcome of `DialPeer(peerID, _)`: `(nil, false, nil)` at once for a blocked peer (no tracker is
+touched), the error of `addSessionTrackerRef`, or the tracker whose link is awaited and returned. -/
+inductive Dial where
+  | refused
+  | err
+  | tracker (t : Tracker)
+deriving Repr, DecidableEq
+
+def Transport.dialPeer (t : Transport) (peerID : Bytes) : Dial :=
+  if t.blocked peerID then .refused
+  else match dialTracker t.localID peerID with
+    | none => .err
+    | some tk => .tracker tk
+
+/-- `GetPeerDialer(peerID)`: does the transport offer itself for dialing `peerID`? (`nil, nil` for a
+blocked peer; `Address: "webrtc"` when `AllPeers`; otherwise the entry of `conf.Dialers`, if any.) -/
+def Transport.offersDialer (t : Transport) (peerID : Bytes) : Bool :=
+  if t.blocked peerID then false
+  else t.allPeers || t.dialers.contains (Codec.idB58Encode peerID)
+
+/-- The keys of `incomingSessions` (the references held because of `HandleSignalPeer` directives).
+`Resolve` enters its session's remote peer when the first signal is pushed to the tracker … -/
+def incomingEnter (tab : List Bytes) (remoteStr : Bytes) : List Bytes :=
+  if tab.contains remoteStr then tab else remoteStr :: tab
+
+/-- … and its deferred function removes that entry (and releases the reference) when it returns. -/
+def incomingExit (tab : List Bytes) (remoteStr : Bytes) : List Bytes := tab.filter (· != remoteStr)
+
+/-- What `executeLink` hands to `transport_quic.NewLink` besides the Quic session: the transport's
+own UUID and peer ID (`Gen.WebRtcSession.newLinkArgs`). The remote peer of the link is NOT an
+argument: `NewLink` takes it from the verified session identity. -/
+structure LinkArgs where
+  transportUUIDOf : Bytes
+  localPeer : Bytes
+deriving Repr, DecidableEq
+
+def Transport.linkArgs (t : Transport) : LinkArgs := ⟨t.localID, t.localID⟩
+
 /-- What a running tracker hands to its sinks (`executeLink`, `executeXmitSignal`, `execute`;
 the expressions are pinned by `Props.C26.session_code_shape` / `handler_code_shape`): the expected
 remote peer of `ListenSession` / `DialSession` and the remote peer of the signaling session are
